@@ -424,7 +424,7 @@ def check_key_form_predicates(rep, prog):
     cases = [({'%s.is_public' % me: Const(True)}, 'True'), ({'%s.is_public' % me: Const(False), '%s._key.protected' % me: Const(False)}, 'True'),
              ({'%s.is_public' % me: Const(False), '%s._key.protected' % me: Const(True)}, '%s._key.unlocked' % me)]
     for bind, want in cases:
-        for s in Interp(prog, Scenario(bind=bind, inline=noinline, inline_props={'is_protected'})).run(iu):
+        for s in Interp(prog, Scenario(bind=bind, inline=noinline, inline_props={'is_protected'}, extended=True)).run(iu):
             rep.check(render(s.ret) == want, 'C16.2', 'PGPKey.is_unlocked', '%s -> %s' % ({k: render(v) for k, v in bind.items()}, render(s.ret)),
                       'a protected private key counts as unlocked only when its packet says so', where=iu.where, expected=want, found=render(s.ret))
     ul = prog.method('pgpy.packet.packets', 'PrivKeyV4', 'unlocked')
